@@ -64,6 +64,10 @@ func (e *Executor) statusOnSuccess(state *fingerprint.TaskState) error {
 }
 
 func (e *Executor) statusOnError(t *ast.Task) error {
+	// A dry run has recorded nothing and leaves the record of earlier runs alone
+	if e.Dry {
+		return nil
+	}
 	method := t.Method
 	if method == "" {
 		method = e.Taskfile.Method
